@@ -1,7 +1,7 @@
 (* C03 — executable model of everything that moves the catchment model during an optimisation run under
    a variable limit: the starting extreme chosen by CoreModel.InitialiseActions, the two randomisation
    loops (RandomlyValidlyActivateActions / RandomlyValidlyDeactivateActions, including their attempt
-   counter and the panic when it reaches zero), one iteration of the single-objective explorer
+   counter and the panic when it reaches zero without a boundary having been found), one iteration of the single-objective explorer
    (kirkpatrick.Explorer.TryRandomChange + AcceptOrRevertChange) and one iteration of the multi-objective
    explorer (suppapitnarm.Explorer.TryRandomChange: synchronise, Randomize, archive, move, return to base).
    Random picks, acceptance decisions, archive outcomes and return-to-base selections are INPUTS
@@ -29,14 +29,20 @@ Definition start_extreme (d : dataset) : state :=
 
 Inductive lres := LOk (s : state) | LPanic | LOutOfPicks.
 
+(* len(ActiveActions()) == actionNumber  (dir = true)  /  == 0  (dir = false): nothing is left to toggle *)
+Definition all_target (d : dataset) (s : state) (dir : bool) : bool :=
+  forallb (fun i => Bool.eqb (st_active s i) dir) (seq 0 (nactions d)).
+
 (* RandomlyValidly{Activate,Deactivate}Actions.  [picks] = the indices Intn returns; a pick that is already
-   in the target state is skipped without consuming an attempt; the Go loop panics ("attempt limit reached")
-   whenever the counter is 0 when the loop is left, even if the last attempt found the boundary. *)
+   in the target state is skipped without consuming an attempt; the loop is left when the last attempt was invalid
+   (the boundary), when the counter is 0, or when every action is in the target state already; the Go code panics
+   ("attempt limit reached") only when the counter is 0 and every attempt was valid (no boundary found). *)
 Fixpoint rand_loop (d : dataset) (dir : bool) (picks : list nat) (attempts : nat) (valid : bool) (s : state) : lres :=
   match attempts with
-  | O => LPanic
+  | O => if valid then LPanic else LOk s
   | S a' =>
       if negb valid then LOk s else
+      if all_target d s dir then LOk s else
       match picks with
       | [] => LOutOfPicks
       | i :: ps =>
